@@ -9,6 +9,11 @@ ASSUMPTIONS = [
     "the label decoder (Spec.C04.decodeLabel) is evaluated by the Lean driver on the labels and "
     "matrices the implementation returned; columns whose label the statement does not define "
     "(sum-coded factors, columns of a spline/polynomial basis, prop) are counted as skipped",
+    "prediction stage: the matrices returned by common/group.evaluate_new_data carry the training "
+    "labels and are judged by the same decoder (Spec.C04.checkAt) on the NEW frame's data; a call "
+    "atom is read with the transform state of the training frame (center keeps the training mean); "
+    "refusals of evaluate_new_data (levels= / ordered boxes on a frame lacking a level, D13) are "
+    "counted, not judged (they belong to C06 / C10)",
     "numeric data are small integers / dyadic rationals; entries are compared with relative "
     "tolerance 1e-9 because center() divides by the number of rows",
 ]
@@ -33,12 +38,54 @@ def parts_of(obs):
     return out
 
 
+def new_frames(r, df):
+    """frames for the prediction stage ("every design" includes the matrices evaluate_new_data
+    returns; they carry the training labels): the training frame itself, a row-permuted copy, a
+    longer frame made of repeated rows (all three contain every level of the training frame), and
+    a random sub-frame (levels may be missing, statistics differ)"""
+    n = len(df)
+    perm = list(range(n))
+    r.shuffle(perm)
+    rep = list(range(n)) + [r.randrange(n) for _ in range(r.randrange(1, n + 1))]
+    r.shuffle(rep)
+    sub = sorted(r.sample(range(n), r.randrange(1, n + 1)))
+    r.shuffle(sub)
+    first = ("same", df) if r.random() < 0.5 else ("permuted", designs.scramble_index(r, df.iloc[perm]))
+    return [first, ("repeated", designs.scramble_index(r, df.iloc[rep])),
+            ("subset", designs.scramble_index(r, df.iloc[sub]))]
+
+
+def predict_parts(dm, nd):
+    """evaluate_new_data of the common and the group part; labels as the new objects report them"""
+    import warnings
+    out = []
+    for part in ("common", "group"):
+        obj = getattr(dm, part)
+        if obj is None:
+            continue
+        try:
+            with warnings.catch_warnings():
+                warnings.simplefilter("ignore")
+                new = obj.evaluate_new_data(nd)
+            labels = designs._labels(list(new.terms.values()))
+            if labels is None:
+                continue
+            out.append((part, {"labels": labels, "matrix": designs.mat(new.design_matrix)}))
+        except Exception as e:  # noqa  (refusals on new data belong to C06 / C10)
+            out.append((part, {"err": type(e).__name__}))
+    return out
+
+
 def explore(tier, seed, res=None, replay=None):
     res = res or Result()
     res.rule = ("generated (formula, frame) designs: main effects, interactions of arity <= 3 in "
                 "random factor order over str / Categorical / ordered Categorical / integer-via-C "
                 "columns with unequal level counts, group-specific terms; non-trivial = a design "
-                "with an interaction or a group-specific term; distinct by formula")
+                "with an interaction or a group-specific term; distinct by formula.  Prediction stage: "
+                "common.evaluate_new_data / group.evaluate_new_data of every design on the training "
+                "frame itself, a row-permuted copy, a longer frame of repeated rows (all levels "
+                "present) and a random sub-frame, judged by the same label decoder on the new frame's "
+                "data (call atoms keep their training-time transform state)")
     n_cases = 600 if tier == "quick" else 20000
     cases = []
     if replay is not None:
@@ -49,6 +96,7 @@ def explore(tier, seed, res=None, replay=None):
         for _ in range(n_cases):
             cases.append((None, len(cases)))
     reqs_spec, reqs_model, reqs_pipe, owners = [], [], [], []
+    reqs_new, owners_new = [], []
     for f, path in cases:
         r = rng_for(seed, "c04", path)
         df = designs.gen_frame(r)
@@ -70,6 +118,21 @@ def explore(tier, seed, res=None, replay=None):
         reqs_pipe.append({"op": "pipeline", "formula": formula, "frame": designs.frame_json(df),
                           "names": designs.names_json(designs.NAMES), "na_action": "drop"})
         owners.append((case, obs, parts))
+        # prediction stage: the matrices evaluate_new_data returns carry the same labels
+        for kind, nd in new_frames(r, df):
+            pparts = predict_parts(obs["_dm"], nd)
+            good = []
+            for pname, p in pparts:
+                if "err" in p:
+                    res.count(f"predict_impl_error:{kind}:{p['err']}")
+                else:
+                    good.append((pname, p))
+            if not good:
+                continue
+            reqs_new.append({"op": "c04_spec", "formula": formula, "frame": designs.frame_json(nd),
+                             "train_frame": req["frame"], "names": req["names"],
+                             "parts": [p for _, p in good]})
+            owners_new.append((dict(case, stage="predict", new_frame=kind), good))
         if ":" in formula.split("~")[1] or "|" in formula:
             res.nontrivial.add(formula)
         if len(res.samples) < 6:
@@ -78,6 +141,26 @@ def explore(tier, seed, res=None, replay=None):
     spec = ask(reqs_spec)
     model = ask(reqs_model)
     pipe = ask(reqs_pipe)
+    spec_new = ask(reqs_new)
+    for (case, parts), sp in zip(owners_new, spec_new):
+        if "err" in sp:
+            res.count("predict_spec_skip:" + sp["err"])
+            continue
+        for (pname, p), v in zip(parts, sp["parts"]):
+            if "err" in v:
+                res.count("predict_part_skip:" + v["err"] + ":" + str(v.get("what"))[:30])
+                continue
+            res.count("predict_columns_judged:" + case["new_frame"], v["judged"])
+            res.count("predict_columns_skipped", v["skipped"])
+            if not v["ok"] or not v["level_order_ok"]:
+                res.failures.append({
+                    "case": case, "impl": {"part": pname, "labels": p["labels"]},
+                    "expected": "column of the evaluate_new_data matrix = decode(label) on the new frame",
+                    "why": (f"{pname}.evaluate_new_data on the {case['new_frame']} frame: column "
+                            f"labelled {v['first_bad']!r} does not hold what the label says"
+                            if not v["ok"] else
+                            f"{pname}: levels not in sorted / declared order"),
+                    "finding": None})
     for (case, obs, _), po in zip(owners, pipe):
         if "err" in po:
             res.count("pipeline_skip:" + po["err"] + ":" + str(po.get("what"))[:24])
